@@ -17,6 +17,8 @@ def ev_channel_Free : List String :=
   ["call ch.freed.CompareAndSwap(false, true)", "if !ok", "call panic(\"free called multiple times\")", "call ch.closeUser()", "call ch.release()"]
 def ev_channel_receive : List String :=
   ["call ch.tryAcquire()", "if !ok", "return status.OK", "call ch.release()", "if s.closed.Load()", "call s.closed.Load()", "return status.OK", "return s.receiveMessage(msg)"]
+def ev_channel_closeUser : List String :=
+  ["call ch.acquire()", "call ch.release()", "call s.closed.Load()", "if closed", "return ", "call s.close()", "call s.sender.sendClose(s.ctx, nil)", "switch st.Code", "case status.CodeOK, status.CodeCancelled, status.CodeClosed, status.CodeEnd", "default", "call panic(fmt.Sprintf(\"unexpected status: %v\", st))"]
 def ev_channel_ReceiveAsync : List String :=
   ["call s.recvQueue.Read()", "if !ok || !st.OK()", "return nil, ok, st", "call s.recvBytes.Add(size)", "if recv < s.initWindow/2", "return data, true, status.OK", "call s.recvBytes.Add(-recv)", "if !s.closed.Load()", "call s.closed.Load()", "call s.sender.sendWindow(ctx, recv)", "switch st.Code", "case status.CodeOK, status.CodeCancelled, status.CodeClosed, status.CodeEnd", "default", "return nil, false, st", "return data, true, status.OK"]
 def ev_channel_Receive : List String :=
